@@ -23,3 +23,5 @@ import TFV.Properties.Src.TreeIdx
 #print axioms TFV.SrcTie.C09_src_find_end_subtree
 #print axioms TFV.SrcTie.C09_src_find_id_args
 #print axioms TFV.SrcTie.C09_src_first_difference
+#print axioms TFV.SrcTie.C09_src_find_end_subtree_size
+#print axioms TFV.SrcTie.C09_src_find_id_args_positions
